@@ -121,16 +121,39 @@ def run(ctx):
     ctx.rule("C07-census", "every panic-capable site reachable from the entry points is discharged by a checked argument")
     D = Discharger(ctx, fb, reach)
     per_key = {}
+    totals = {}
     for (f, b, t, kind, what) in all_sites:
         ok, rule, why = D.discharge(f, b, t, kind, what)
         ctx.oblige(ok)
         key = "%s/%s" % (short(f.name), what)
+        totals[(f.name, what)] = totals.get((f.name, what), 0) + 1
         ctx.inst("C07-census", key + ("@bb%d" % b), {"kind": kind, "discharged_by": rule if ok else None}, nontrivial=True)
         if not ok:
             per_key.setdefault(key, []).append((f, t, kind, what, why))
+    # The functions of the pinned tree are the reference (engine/c07_baseline.json).  An undischarged site in one of them is a
+    # violation: a discharge argument no longer holds, or a panic-capable construct was added without one.  Undischarged sites
+    # in functions that did not exist there (helpers extracted by a restructuring) are code this census has no argument
+    # for: UNDECIDED — a verdict would be a guess.
+    import json as _json, os as _os
+    try:
+        _b = _json.load(open(_os.path.join(_os.path.dirname(_os.path.dirname(_os.path.abspath(__file__))), "c07_baseline.json")))
+        baseline, known_fns = _b["sites"], set(_b.get("functions", []))
+    except Exception:
+        baseline, known_fns = None, set()
     for key, lst in sorted(per_key.items()):
         f, t, kind, what, why = lst[0]
-        ctx.report("C07-census", key, "%d undischarged %s site(s) `%s` in %s: %s" % (len(lst), kind, what, f.name, why), where_of(f, t))
+        # a function that exists on the pinned tree is judged in full: a panic-capable construct added to it needs an
+        # argument; only sites inside functions that did not exist (extracted helpers) are "new code"
+        if baseline is None or f.name.split("::{closure")[0] in known_fns:
+            new = 0
+        else:
+            new = len(lst)
+        n_viol = max(0, len(lst) - new)
+        if n_viol:
+            ctx.report("C07-census", key, "%d undischarged %s site(s) `%s` in %s: %s" % (n_viol, kind, what, f.name, why), where_of(f, t))
+        if len(lst) - n_viol:
+            ctx.undecided("C07-census", key, "%d new %s site(s) `%s` in %s (not present on the pinned tree) for which no discharge "
+                          "argument applies: %s" % (len(lst) - n_viol, kind, what, f.name, why), where_of(f, t))
     by_kind = {}
     for (f, b, t, kind, what) in all_sites:
         by_kind[kind] = by_kind.get(kind, 0) + 1
@@ -202,7 +225,11 @@ def run(ctx):
                     if sw and sw[1].get(0) in dom[b]:
                         ok = True
             ctx.inst("C07-state", "libraries/insert-after-success", ok)
-            if not ok:
+            has_anchor = any((callee(tt) or "").endswith("new_library") for _, tt in gl.calls())
+            if not ok and not has_anchor:
+                ctx.undecided("C07-state", "libraries/negative-cache", "get_library no longer instantiates through new_library: cannot tell "
+                              "which `?` edges belong to the instantiation", where_of(gl, t))
+            elif not ok:
                 ctx.report("C07-state", "libraries/negative-cache", "a library instance is cached although instantiation may have failed", where_of(gl, t))
     return EXPLANATION, NOT_DECIDED
 
